@@ -418,7 +418,7 @@ func (ctx *Ctx) cmp(path []byte, cond op, right []byte) bool {
 		if v.key == ctx.bufS[0] {
 			// Compare var with right value using inspector.
 			if v.cntrF {
-				ctx.Err = v.ins.Compare(v.cntr, inspector.Op(cond), byteconv.B2S(right), &ctx.BufB, ctx.bufS[1:]...)
+				ctx.Err = v.ins.Compare(&v.cntr, inspector.Op(cond), byteconv.B2S(right), &ctx.BufB, ctx.bufS[1:]...)
 			} else if v.val == nil && len(v.buf) > 0 {
 				// Special case: var is a byte slice.
 				ctx.Err = v.ins.Compare(&v.buf, inspector.Op(cond), byteconv.B2S(right), &ctx.BufB, ctx.bufS[1:]...)
